@@ -4,6 +4,7 @@
 -/
 import Lean.Data.Json
 import KodaModel.Eval
+import KodaModel.Typehint
 
 open Lean (Json)
 namespace Koda.Wire
@@ -455,5 +456,83 @@ def outJ : Out → Json
   | .valid w => Json.mkObj [("valid", valJ w)]
   | .invalid e => Json.mkObj [("invalid", invJ e)]
   | .raised x => Json.mkObj [("raised", exnJ x)]
+
+/-! ### printing validators (what `derive` builds; user callbacks are not printable) -/
+
+def predJ (p : Pred) : Json :=
+  match p.k with
+  | .choices vs => Json.mkObj [("k", "Choices"), ("pid", p.pid), ("vs", Json.arr (vs.map valJ).toArray)]
+  | .equalTo v => Json.mkObj [("k", "EqualTo"), ("pid", p.pid), ("v", valJ v)]
+  | _ => Json.mkObj [("k", "opaque"), ("pid", p.pid)]
+
+def coerceJ : Option CoerceK → Json
+  | none => Json.null
+  | some .dflt => "default"
+  | some .classOnly => "classOnly"
+  | some (.user cid _ _) => Json.mkObj [("cid", cid)]
+
+def recKindJ : RecKind → Json
+  | .record => "record" | .dictAny => "dictAny" | .dataclass => "dataclass" | .namedtuple => "namedtuple"
+  | .typeddict => "typeddict"
+
+partial def vJ : V → Json
+  | .scalar vid tg c pre ps aps =>
+    Json.mkObj [("k", "scalar"), ("vid", vid), ("ty", tyJ tg), ("coerce", coerceJ c), ("npre", pre.length),
+      ("preds", Json.arr (ps.map predJ).toArray), ("napreds", aps.length)]
+  | .equals vid m _ pid => Json.mkObj [("k", "equals"), ("vid", vid), ("m", valJ m), ("pid", pid)]
+  | .noneV vid c => Json.mkObj [("k", "none"), ("vid", vid), ("coerce", coerceJ c)]
+  | .always vid => Json.mkObj [("k", "always"), ("vid", vid)]
+  | .isDict vid => Json.mkObj [("k", "isDict"), ("vid", vid)]
+  | .list vid item ps _ c => Json.mkObj [("k", "list"), ("vid", vid), ("item", vJ item), ("npreds", ps.length), ("coerce", coerceJ c)]
+  | .set vid item ps _ c => Json.mkObj [("k", "set"), ("vid", vid), ("item", vJ item), ("npreds", ps.length), ("coerce", coerceJ c)]
+  | .utuple vid item ps _ c => Json.mkObj [("k", "utuple"), ("vid", vid), ("item", vJ item), ("npreds", ps.length), ("coerce", coerceJ c)]
+  | .ntuple vid fs _ c lp => Json.mkObj [("k", "ntuple"), ("vid", vid), ("fields", Json.arr (fs.map vJ).toArray), ("coerce", coerceJ c), ("lenPid", lp)]
+  | .map vid k v ps _ c => Json.mkObj [("k", "map"), ("vid", vid), ("key", vJ k), ("value", vJ v), ("npreds", ps.length), ("coerce", coerceJ c)]
+  | .record vid cfg vs =>
+    Json.mkObj [("k", "record"), ("vid", vid), ("kind", recKindJ cfg.kind), ("keys", Json.arr (cfg.keys.map valJ).toArray),
+      ("reqs", Json.arr (cfg.reqs.map (fun (b : Bool) => (b : Json))).toArray), ("cls", clsJ cfg.cls),
+      ("failUnknown", cfg.failUnknown), ("coerce", coerceJ cfg.coerce), ("vals", Json.arr (vs.map vJ).toArray)]
+  | .union vid vs => Json.mkObj [("k", "union"), ("vid", vid), ("vs", Json.arr (vs.map vJ).toArray)]
+  | .optional vid nv inner => Json.mkObj [("k", "optional"), ("vid", vid), ("noneV", vJ nv), ("inner", vJ inner)]
+  | .maybe vid inner => Json.mkObj [("k", "maybe"), ("vid", vid), ("inner", vJ inner)]
+  | .lazy vid ref => Json.mkObj [("k", "lazy"), ("vid", vid), ("ref", ref)]
+  | .knr vid inner => Json.mkObj [("k", "knr"), ("vid", vid), ("inner", vJ inner)]
+  | .user vid inner => Json.mkObj [("k", "user"), ("vid", vid), ("inner", vJ inner)]
+
+/-! ### annotations -/
+
+def optVals (j : Json) (k : String) : D (List (Option PyVal)) := do
+  (← arr j k).toList.mapM (fun d => match d with
+    | .null => pure none
+    | v => do pure (some (← getVal v)))
+
+partial def getAnn (j : Json) : D Ann := do
+  match ← str j "a" with
+  | "str" => pure .str | "int" => pure .int | "float" => pure .float | "none" => pure .none
+  | "uuid" => pure .uuid | "date" => pure .date | "datetime" => pure .datetime | "bool" => pure .bool
+  | "decimal" => pure .decimal | "bytes" => pure .bytes | "any" => pure .any
+  | "listBare" => pure .listBare | "setBare" => pure .setBare | "tupleBare" => pure .tupleBare
+  | "dictBare" => pure .dictBare
+  | "list" => pure (.list (← getAnn (← fld j "x")))
+  | "set" => pure (.set (← getAnn (← fld j "x")))
+  | "dict" => pure (.dict (← getAnn (← fld j "key")) (← getAnn (← fld j "value")))
+  | "union" => pure (.union (← (← arr j "xs").toList.mapM getAnn))
+  | "maybe" => pure (.maybe (← getAnn (← fld j "x")))
+  | "tupleVar" => pure (.tupleVar (← getAnn (← fld j "x")))
+  | "tupleFixed" => pure (.tupleFixed (← (← arr j "xs").toList.mapM getAnn))
+  | "literal" => pure (.literal (← (← arr j "vs").toList.mapM getVal))
+  | "annotated" => pure (.annotated (← getAnn (← fld j "x")) (← getV (← fld j "v")))
+  | "dataclass" =>
+    pure (.dataclass (← getCls (← fld j "cls")) (← (← arr j "names").toList.mapM (fun x => x.getStr?))
+      (← (← arr j "anns").toList.mapM getAnn) (← optVals j "dflts"))
+  | "namedtuple" =>
+    pure (.namedtuple (← getCls (← fld j "cls")) (← (← arr j "names").toList.mapM (fun x => x.getStr?))
+      (← (← arr j "anns").toList.mapM getAnn) (← optVals j "dflts"))
+  | "typeddict" =>
+    pure (.typeddict (← getCls (← fld j "cls")) (← (← arr j "names").toList.mapM (fun x => x.getStr?))
+      (← (← arr j "anns").toList.mapM getAnn) (← (← arr j "reqs").toList.mapM (fun b => b.getBool?)))
+  | "cls" => pure (.cls (← getCls (← fld j "cls")))
+  | "marked" => pure (.marked (← getAnn (← fld j "x")))
+  | a => throw s!"bad annotation {a}"
 
 end Koda.Wire
